@@ -37,6 +37,11 @@ chk("C02", "exploration",
     "Sampling over an unbounded input space; damage is seeded, not coverage-guided. Mid-stream read errors other than EISDIR are not injected (no property covers them). Uninitialised reads are observed only through ASan/UBSan and the fill byte.",
     "deterministic simulation: seeded storage-fault injection on input sources over all delivery routes, with death/stdout/budget monitors and recovery probe", "7/C02")
 
+chk("C13", "exploration",
+    "Seeded search: an accepted rendered text is split at item boundaries into a random tree of include files (depth 0..9; absolute, search-path-relative and tilde names; buffer/stream/file delivery) and must give exactly the dump of the flat text obtained by writing every included file in place (O-flat); a wrong token appended to the includer must be reported with the includer's own file name and line (position restored); every failing target (missing, directory, unreadable, one level too deep, self-inclusion, error inside the included file, empty name) must be a reported parse error with no exit/abort, an empty include stack and all streams closed afterwards, followed by a good include that must work; histories of 1..12 failing includes are followed by the include tree in a new context compared with a fresh process image.",
+    "Splitting is at top-level item boundaries only. Expected lines come from the generator's own text (newlines counted once). Oracles with expectations first establish that the fault-free source is accepted silently.",
+    "deterministic simulation: simulated file tree + failing-target injection + history/recovery probes, flat-vs-split differential oracle", "7/C13")
+
 PENDING = {}  # id -> reason (checks not built yet)
 
 def main():
